@@ -48,9 +48,52 @@ func runC03(c *Ctx) {
 	if !c.Check("R3.1", "Spec.DFA combines the per-definition automata with automata.CombineDFA", fd.Pos(), combine != nil, "no call of CombineDFA") {
 		return
 	}
+	// what denotes "the definitions": a load of the Definitions field, or (inside a helper) the parameter that the call in
+	// Spec.DFA binds to such a load
+	var defsParam *ssa.Parameter
+	isDefs := func(v ssa.Value) bool {
+		if u, ok := v.(*ssa.UnOp); ok {
+			if fa, ok := u.X.(*ssa.FieldAddr); ok && fieldName(fa) == "Definitions" {
+				return true
+			}
+		}
+		return defsParam != nil && v == ssa.Value(defsParam)
+	}
 	ds, _ := combine.Call.Args[0].(*ssa.MakeSlice)
-	okMake := ds != nil && lenOfField(ds.Len, "Definitions")
-	c.Check("R3.1", "one automaton slot per definition, all passed to CombineDFA", combine.Pos(), okMake, "the slice given to CombineDFA is not made with len(s.Definitions)")
+	if ds == nil {
+		// the slice may be built by a helper of the package and handed back: look at what the helper returns
+		var src ssa.Value = combine.Call.Args[0]
+		if ex, ok := src.(*ssa.Extract); ok {
+			src = ex.Tuple
+		}
+		if hc, ok := src.(*ssa.Call); ok {
+			if g := hc.Call.StaticCallee(); g != nil && g.Pkg == fn.Pkg {
+				for _, b := range g.Blocks {
+					if ret, ok := b.Instrs[len(b.Instrs)-1].(*ssa.Return); ok && len(ret.Results) >= 1 {
+						if mk, ok := retOperand(ret, 0).(*ssa.MakeSlice); ok {
+							ds = mk
+							for i, a := range hc.Call.Args {
+								if isDefs(a) && i < len(g.Params) {
+									defsParam = g.Params[i]
+								}
+							}
+						}
+					}
+				}
+			}
+		}
+	}
+	if ds == nil {
+		c.Undecided("R3.1", "one automaton slot per definition, all passed to CombineDFA", combine.Pos(), "the slice given to CombineDFA is not a make(...) in Spec.DFA or in the helper that returns it")
+	} else {
+		okMake := false
+		if call, ok := ds.Len.(*ssa.Call); ok {
+			if b, ok := call.Call.Value.(*ssa.Builtin); ok && b.Name() == "len" && isDefs(call.Call.Args[0]) {
+				okMake = true
+			}
+		}
+		c.Check("R3.1", "one automaton slot per definition, all passed to CombineDFA", combine.Pos(), okMake, "the slice given to CombineDFA is not made with len(s.Definitions)")
+	}
 	if ds != nil {
 		// every store into ds[i] has i == the range index over s.Definitions and its value derives from Definitions[i]
 		nStores, okStores := 0, true
@@ -62,7 +105,7 @@ func runC03(c *Ctx) {
 			for _, rr := range *ia.Referrers() {
 				if st, ok := rr.(*ssa.Store); ok && st.Addr == ssa.Value(ia) {
 					nStores++
-					if !isRangeIndexOverField(ia.Index, "Definitions") {
+					if !isRangeIndexOverValue(ia.Index, isDefs) {
 						okStores = false
 					}
 				}
